@@ -302,6 +302,48 @@ PROPS.update({
     },
 })
 
+PROPS.update({
+    "C17": {
+        "tests": "^TestC17_",
+        "quick": {"scale": 1.0, "timeout": 1200},
+        "thorough": {"scale": 0.6, "shards": 16, "timeout": 2400, "fuzz": [("FuzzC17", 90)]},
+        "rule": "rapid: DID documents the VDR accepts (0-4 verification methods: Ed25519 2018 as bytes or JWK, Ed25519 2020, "
+                "JsonWebKey2020 over P-256/P-384/secp256k1/Ed25519, EcdsaSecp256k1 2019; each in a non-empty subset of the relationships "
+                "its type permits; 0-2 services; absolute also-known-as URIs), fixed update/recovery keys of any type, methods ion / ionx / "
+                "io / orb / a1. Oracles: DID = ns:refHash(suffix data):unpadded base64url of the canonical request; Create three times => "
+                "same DID; ResolveDocument == refTransform of the supplied document (keys/relationships as sets, @base ids, commitments = "
+                "refHash of the supplied keys, equivalentId = short form); VDR.Read, Create's document and ProcessOperation agree. Rejected: "
+                "120 sampled (every position in thorough) single-character substitutions over [A-Za-z0-9-_:], every character of the type "
+                "value and other operation types, nine re-encodings of the initial state (whitespace, member order, padding, standard "
+                "alphabet, trailing bits, extra member, empty), short form, foreign suffix, and resolution by handlers / VDRs of seven "
+                "other namespaces related by prefix (which must still resolve their own DID with the same suffix and state). Non-trivial: "
+                "document with >= 2 keys, or a tamper that still decodes to JSON; distinct by DID.",
+        "technique": "property-based testing (rapid): reference transform + hash reference, metamorphic determinism check, by-construction rejection of tampered / foreign DIDs; native fuzzing of ResolveDocument in thorough",
+        "level_text": "Randomised exploration over documents and a dense sample (thorough: all positions) of single-character tamperings.",
+        "level_note": "Trusts refTransform/refHash and did-go / kms-go types used to describe the input document.",
+        "assumptions": ["creates refused for size (1700-byte delta / 2500-byte request limit of the built-in protocol) are outside the domain and counted", "order of verification methods and of key contexts is not part of 'equivalent to the document supplied'"],
+    },
+    "C18": {
+        "tests": "^TestC18_",
+        "quick": {"scale": 2.0, "timeout": 900},
+        "thorough": {"scale": 30.0, "shards": 16, "timeout": 1800},
+        "rule": "rapid: internal documents of 0-5 validated keys (six types, purpose subsets, JWK or base58 material consistent with the type), "
+                "0-3 services with extra members, also-known-as; options base / method contexts / custom key-context map (incl. two types "
+                "sharing one context) / include published / unpublished; transformation info published true/false, canonical and equivalent "
+                "ids; 0-6 published and unpublished anchored operations with (time, number) from a 5x5 grid or huge times, all pairs "
+                "distinct, shuffled, with repeated canonical references. Oracle: refTransform builds the complete expected result "
+                "(verification methods 1:1 in order, id rule with/without @base, controller, base58/multibase conversion for Ed25519 "
+                "2018/2020, relationships = purposes, services with qualified ids and all members, contexts, metadata, operations sorted by "
+                "(time, number) and de-duplicated by canonical reference) and the JSON is compared; the generic transformer is compared too. "
+                "Non-trivial: two keys of one type with different purpose sets, or an included operation list where time order and number "
+                "order disagree; distinct by expected result.",
+        "technique": "property-based testing (rapid) against a declarative reference construction of the resolution result",
+        "level_text": "Randomised exploration against an executable specification of the result.",
+        "level_note": "Trusts refTransform (about 120 lines) and btcutil/base58 for the conversions.",
+        "assumptions": ["key material is consistent with the key type (an Ed25519 type with a non-Ed25519 JWK passes patch validation but cannot be converted; outside the domain)", "operations sharing a canonical reference are identical copies (which one represents the group is then irrelevant)"],
+    },
+})
+
 NOT_APPLICABLE = {p: "check not built yet (work in progress; this entry is temporary)" for p in
                   ["C%02d" % i for i in range(1, 21)]}
 HOOK_COMMITS = []
